@@ -240,7 +240,7 @@ def run(tier):
   ck = Check('C15', tier)
   ck.prove('props/C15.v', gen_targets=[], extra=['harness/RunC15.vo'])
   rng = random.Random(ck.seed * 53 + 15)
-  n = 300 if tier == 'quick' else 5000
+  n = common.sz(tier, 300, 5000)
   cases = [gen_case(rng, i) for i in range(n)]
   res = common.pmap(_one, cases, chunksize=10)
   dist = {'ok': 0, 'ValueError': 0, 'elig_modes': {}}
